@@ -108,6 +108,38 @@ def rule_agreement(repo, rule):
 WIDTH_PARAMS = ("bits",)
 
 
+def _length_of(e, fnode, depth=0):
+    """set of symbolic lengths (texts) an iterable expression can have, following locals; None if not derivable"""
+    if depth > 4:
+        return None
+    if isinstance(e, ast.Call) and norm(e.func) == "range" and len(e.args) == 1:
+        return {norm(e.args[0])}
+    if isinstance(e, ast.Call) and norm(e.func) in ("list", "tuple", "reversed", "enumerate") and len(e.args) == 1:
+        return _length_of(e.args[0], fnode, depth + 1)
+    if isinstance(e, ast.Call) and isinstance(e.func, ast.Attribute) and e.func.attr == "to_bits" and len(e.args) == 1:
+        return {norm(e.args[0])}
+    if isinstance(e, (ast.ListComp, ast.GeneratorExp)) and len(e.generators) == 1 and not e.generators[0].ifs:
+        return _length_of(e.generators[0].iter, fnode, depth + 1)
+    if isinstance(e, ast.BinOp) and isinstance(e.op, ast.Mult):
+        for lst, k in ((e.left, e.right), (e.right, e.left)):
+            if isinstance(lst, ast.List) and len(lst.elts) == 1:
+                return {norm(k)}
+    if isinstance(e, ast.Name):
+        defs = [a.value for a in ast.walk(fnode) if isinstance(a, ast.Assign) and len(a.targets) == 1 and norm(a.targets[0]) == e.id]
+        if not defs:
+            return None
+        out = set()
+        for d in defs:
+            if isinstance(d, ast.Name) and d.id == e.id:
+                continue
+            ln = _length_of(d, fnode, depth + 1)
+            if ln is None:
+                return None
+            out |= ln
+        return out or None
+    return None
+
+
 def rule_width(repo, rule):
     ci = repo.cls(RT, "LinComb")
     # a *width* parameter is an optional int (default None); from_bits(bits) takes the list of bits, not a width
@@ -144,11 +176,14 @@ def rule_width(repo, rule):
         loops = [g for n in ast.walk(fi.node) if isinstance(n, (ast.ListComp, ast.GeneratorExp)) for g in n.generators
                  if "PrivValBool" in norm(n.elt)]
         for g in loops:
-            if norm(g.iter) == "range(%s)" % wp:
-                rule.ok(fi.loc(g.iter), fi.fq, "bits built: %s" % norm(g.iter))
+            ln = _length_of(g.iter, fi.node)
+            if ln == {wp}:
+                rule.ok(fi.loc(g.iter), fi.fq, "bits built: %s (length %s)" % (norm(g.iter), wp))
+            elif ln is None:
+                rule.undecided(fi.loc(g.iter), fi.fq, "bits built: %s" % norm(g.iter), "length of the iterated sequence not derivable")
             else:
-                rule.violation(fi.loc(g.iter), fi.fq, "bits built: %s" % norm(g.iter), "number of bits allocated is not the "
-                               "requested width `%s`" % wp, "%s/nbits" % fi.qual)
+                rule.violation(fi.loc(g.iter), fi.fq, "bits built: %s (length %s)" % (norm(g.iter), sorted(ln)), "number of bits "
+                               "allocated is not the requested width `%s`" % wp, "%s/nbits" % fi.qual)
         # the width is replaced by the default only when it is None (a requested width of 0 is a width)
         for a in ast.walk(fi.node):
             if isinstance(a, ast.Assign) and len(a.targets) == 1 and norm(a.targets[0]) == wp and not isinstance(a.value, (ast.ListComp,)):
